@@ -14,7 +14,7 @@ impl Prop for C17 {
         "C17"
     }
     fn rule(&self) -> String {
-        "cases = 1-3 prepared statements with 1-6 parameters and a history of 1-12 rounds; a round sends 0-5 COM_STMT_SEND_LONG_DATA chunks (sizes 0, 1, 300, 70000, random; one >= 2^24-byte chunk in the enumerated cases) addressed to generated (statement, parameter) targets, possibly for several statements at once, then executes one statement whose long-data parameters are omitted inline (as clients do) while the others are sent inline incl. NULLs. Oracle: reference model pending[stmt][param]; at an execution the addressed parameters arrive as bytes equal to the in-order concatenation, the others exactly as encoded; afterwards the statement's pending data is empty (the next execution sees its inline value); other statements' pending data is untouched. Non-trivial = >= 2 chunks for one target, or long data pending for another statement across an execution, or an execution without long data after one with.".into()
+        "cases = 1-3 prepared statements with 1-6 parameters and a history of 1-12 rounds; a round sends 0-5 COM_STMT_SEND_LONG_DATA chunks (sizes 0, 1, 300, 70000, random; one >= 2^24-byte chunk in the enumerated cases) addressed to generated (statement, parameter) targets, possibly for several statements at once, (occasionally followed by a re-prepare that hands out the same id and parameter count again, which must discard what is pending), then executes one statement whose long-data parameters are omitted inline (as clients do) while the others are sent inline incl. NULLs. Oracle: reference model pending[stmt][param]; at an execution the addressed parameters arrive as bytes equal to the in-order concatenation, the others exactly as encoded; afterwards the statement's pending data is empty (the next execution sees its inline value); other statements' pending data is untouched. Non-trivial = >= 2 chunks for one target, or long data pending for another statement across an execution, or an execution without long data after one with.".into()
     }
     fn assumptions(&self) -> Vec<String> {
         vec!["long data is only addressed to non-NULL parameters of string type, as client libraries do".into()]
@@ -57,6 +57,13 @@ impl Prop for C17 {
                 };
                 ops.push(Op::Long { stmt: s, param: p as u16, data });
                 pending[s][p] = true;
+                if g.chance(1, 12) {
+                    // the shim hands out the same id again: pending long data must not survive
+                    ops.push(Op::Reprepare { stmt: s });
+                    for x in pending[s].iter_mut() {
+                        *x = false;
+                    }
+                }
                 if g.chance(1, 10) {
                     ops.push(Op::Ping);
                 }
@@ -140,6 +147,13 @@ impl Prop for C17 {
                     chunks.retain(|(s, _), _| s != stmt);
                 }
                 Op::Ping => {}
+                Op::Reprepare { stmt } => {
+                    if chunks.keys().any(|(s, _)| s == stmt) {
+                        ex.nontrivial = true;
+                        ex.class("re-prepare-with-pending-long-data");
+                    }
+                    chunks.retain(|(s, _), _| s != stmt);
+                }
             }
         }
         let (conv, _) = build_history(case);
